@@ -42,6 +42,7 @@ import (
 	"github.com/klauspost/compress/zstd"
 	"github.com/valyala/bytebufferpool"
 	"github.com/valyala/fasthttp"
+	"github.com/valyala/fasthttp/stackless"
 
 	"verif/internal/mon"
 	"verif/internal/netx"
@@ -1026,6 +1027,7 @@ type satResult struct {
 	Seconds    float64           `json:"seconds"`
 	Explicit   int64             `json:"explicit_errors"`
 	PeakRSSMiB int               `json:"peak_rss_mib"`
+	QueueFull  int64             `json:"queue_full_hits"` // stackless.VerifQueueFullCount: the overflow branch was really taken
 	Failed     map[string]int    `json:"failed"`
 	What       map[string]string `json:"what"`
 }
@@ -1097,7 +1099,7 @@ func TestC22ChildSaturation(t *testing.T) {
 		return key, what
 	})
 	res := satResult{Goroutines: g, Queue: queue, InputLen: len(src), Seconds: math.Round(time.Since(t0).Seconds()*10) / 10,
-		Explicit: explicit.Load(), PeakRSSMiB: peakRSSMiB(), Failed: map[string]int{}, What: map[string]string{}}
+		Explicit: explicit.Load(), PeakRSSMiB: peakRSSMiB(), QueueFull: stackless.VerifQueueFullCount.Load(), Failed: map[string]int{}, What: map[string]string{}}
 	for k, e := range bad {
 		res.Failed[k] = e.n
 		res.What[k] = e.what
@@ -1165,6 +1167,7 @@ func runSaturation(r *mon.Run) {
 		r.Event("saturation_calls_checked", res.Goroutines)
 		r.Event("saturation_calls_beyond_queue_capacity", res.Goroutines-res.Queue-p.Procs)
 		r.Event("saturation_explicit_errors", int(res.Explicit))
+		r.Event("saturation_queue_full_branch_hits", int(res.QueueFull))
 		minOffered += res.Goroutines
 		row := map[string]any{"codec": p.Codec, "api": apiNames[p.API], "level": p.Level, "gomaxprocs": p.Procs, "goroutines": res.Goroutines,
 			"queue_capacity": res.Queue, "input_len": res.InputLen, "seconds": res.Seconds, "explicit_errors": res.Explicit, "peak_rss_mib": res.PeakRSSMiB, "failed": res.Failed}
@@ -1181,6 +1184,7 @@ func runSaturation(r *mon.Run) {
 	r.Set("saturation_runs", summary)
 	if !r.Replaying() {
 		r.Require("saturation_calls_beyond_queue_capacity", 500)
+		r.Require("saturation_queue_full_branch_hits", 1) // hook stackless.VerifQueueFullCount: the overflow path was executed
 	}
 }
 
